@@ -59,30 +59,32 @@ def judge_state(ctx, tree, now, case):
 
     sub.materialise(ctx.root, tree)
     root = ctx.root
-    # info ROOT
-    r = ctx.run("info", [root], now=now)
-    stats["cmds"] += 1
-    if "" not in roots:
-        if r.exit != 30:
-            V("no-history-exit", f"info on a folder without history exits {r.exit} {r.exc or ''}", exit=r.exit)
-    elif r.exc is not None or r.exit != 0:
-        V("info-fails", f"info ROOT: exit {r.exit} {r.exc} {r.tb}", exc=(r.exc or "").split(":")[0] or None)
-    else:
-        got = parse_info(r.out, [os.path.join(root, hr) for hr in roots if hr and not ref.is_in_ascmhl(hr)])
-        want = {}
-        for hr in roots:
-            if ref.is_in_ascmhl(hr):
-                continue
-            key = "" if hr == "" else os.path.join(root, hr)
-            want[key] = [(g["number"], ref.read_manifest(g["bytes"])["creationdate"]) for g in ref.generations(tree, hr)]
-        gotg = {k: [(n, d) for n, d, *_ in lst] for k, lst in got.items()}
-        if set(gotg) != set(want):
-            V("history-sections", f"info ROOT lists histories {sorted(gotg)}, on disk {sorted(want)}",
-              missing=len(set(want) - set(gotg)), extra=len(set(gotg) - set(want)))
-        for k in set(gotg) & set(want):
-            if len(gotg[k]) != len(want[k]) or any(a[0] != b[0] or not same_instant(a[1], b[1]) for a, b in zip(gotg[k], want[k])):
-                V("generation-list", f"info ROOT, history '{k or '.'}': printed {gotg[k]}, manifests on disk {want[k]}",
-                  child=k != "")
+    # info ROOT, plain and verbose (the verbose form adds lines, it must not add, drop or repeat generations)
+    for vflag in ((), ("-v",)):
+        vtag = " -v" if vflag else ""
+        r = ctx.run("info", list(vflag) + [root], now=now)
+        stats["cmds"] += 1
+        if "" not in roots:
+            if r.exit != 30:
+                V("no-history-exit", f"info{vtag} on a folder without history exits {r.exit} {r.exc or ''}", exit=r.exit)
+        elif r.exc is not None or r.exit != 0:
+            V("info-fails", f"info{vtag} ROOT: exit {r.exit} {r.exc} {r.tb}", exc=(r.exc or "").split(":")[0] or None, verbose=bool(vflag))
+        else:
+            got = parse_info(r.out, [os.path.join(root, hr) for hr in roots if hr and not ref.is_in_ascmhl(hr)])
+            want = {}
+            for hr in roots:
+                if ref.is_in_ascmhl(hr):
+                    continue
+                key = "" if hr == "" else os.path.join(root, hr)
+                want[key] = [(g["number"], ref.read_manifest(g["bytes"])["creationdate"]) for g in ref.generations(tree, hr)]
+            gotg = {k: [(n, d) for n, d, *_ in lst] for k, lst in got.items()}
+            if set(gotg) != set(want):
+                V("history-sections", f"info{vtag} ROOT lists histories {sorted(gotg)}, on disk {sorted(want)}",
+                  missing=len(set(want) - set(gotg)), extra=len(set(gotg) - set(want)), verbose=bool(vflag))
+            for k in set(gotg) & set(want):
+                if len(gotg[k]) != len(want[k]) or any(a[0] != b[0] or not same_instant(a[1], b[1]) for a, b in zip(gotg[k], want[k])):
+                    V("generation-list", f"info{vtag} ROOT, history '{k or '.'}': printed {gotg[k]}, manifests on disk {want[k]}",
+                      child=k != "", verbose=bool(vflag))
     # info -sf for every recorded file
     recorded = {}
     for hr in roots:
